@@ -80,7 +80,12 @@ Qed.
 
 Definition eq_free_all (idss : list (list string)) : Prop := forall k, eq_free_vec (nth_ids idss k).
 Definition mop_eq_free (o : mop) : Prop :=
-  match o with MEdit _ _ id => eq_freeb id = true | MOp o => op_eq_free o | _ => True end.
+  match o with
+  | MEdit _ _ id => eq_freeb id = true
+  | MOp o => op_eq_free o
+  | MStruct _ _ => False      (* structural edits are outside this theorem: see lookups_current_multi *)
+  | _ => True
+  end.
 
 Lemma nth_ids_set_cases : forall idss k j x, nth_ids (set_ids idss k x) j = x \/ nth_ids (set_ids idss k x) j = nth_ids idss j.
 Proof.
@@ -92,7 +97,7 @@ Proof.
   intros idss k x F Fx j. destruct (nth_ids_set_cases idss k j x) as [E|E]; rewrite E; [assumption | apply F].
 Qed.
 
-Definition cur_st (sts : list structure) (ms : mstate) : structure := nth_st sts (a_model (m_ann ms)).
+Definition cur_st (sts : list structure) (ms : mstate) : structure := st_of sts (m_st ms) (a_model (m_ann ms)).
 Definition cur_state (ms : mstate) : state :=
   {| s_ids := nth_ids (m_ids ms) (a_model (m_ann ms)); s_ann := m_ann ms |}.
 
@@ -102,30 +107,30 @@ Definition MInv (c : cfg) (sts : list structure) (ms : mstate) : Prop :=
 Lemma mstep_inv : forall c sts ms o, fx_refresh c = true -> mop_eq_free o ->
   MInv c sts ms -> MInv c sts (fst (mstep c sts ms o)).
 Proof.
-  intros c sts ms o Hf Ho [F [HP HO]]. destruct o as [k|k slot id| |o]; unfold mstep.
+  intros c sts ms o Hf Ho [F [HP HO]]. destruct o as [k|k slot id| |k j|o]; unfold mstep; [| | |destruct Ho|].
   - (* setModel(model k) *)
-    cbn [fst]. unfold MInv, cur_st, cur_state. cbn [m_ids m_ann].
+    cbn [fst]. unfold MInv, cur_st, cur_state. cbn [m_ids m_ann m_st].
     set (s0 := {| s_ids := nth_ids (m_ids ms) k; s_ann := with_model (m_ann ms) k |}).
-    destruct (set_model_rebuilds c (nth_st sts k) s0) as [R1 [R2 [R3 [R4 R5]]]].
+    destruct (set_model_rebuilds c (st_of sts (m_st ms) k) s0) as [R1 [R2 [R3 [R4 R5]]]].
     split; [exact F|]. split.
     + rewrite R3. cbn [s0 s_ann with_model a_model]. unfold HashPart. right. exists (nth_ids (m_ids ms) k).
       split; [apply F|]. cbn [s_ann]. split; [exact R4 | exact R1].
     + intros _. rewrite R2, R3. reflexivity.
   - (* an id edit on some model *)
-    cbn [fst]. unfold MInv, cur_st, cur_state in *. cbn [m_ids m_ann]. split; [|split; assumption].
+    cbn [fst]. unfold MInv, cur_st, cur_state in *. cbn [m_ids m_ann m_st]. split; [|split; assumption].
     apply set_ids_eq_free; [assumption|]. apply set_eq_free; [apply F | exact Ho].
   - (* the stored model dies *)
-    cbn [fst]. unfold MInv, cur_st, cur_state in *. cbn [m_ids m_ann without_model a_model]. split; [exact F|]. split; assumption.
+    cbn [fst]. unfold MInv, cur_st, cur_state in *. cbn [m_ids m_ann m_st without_model a_model]. split; [exact F|]. split; assumption.
   - (* any operation on the stored model *)
     set (k := a_model (m_ann ms)) in *.
     set (s := {| s_ids := nth_ids (m_ids ms) k; s_ann := m_ann ms |}).
     assert (Fs : eq_free_vec (s_ids s)) by apply F.
-    pose proof (step_eq_free c (nth_st sts k) s o Ho Fs) as F1.
-    pose proof (step_hashpart c (nth_st sts k) s o Hf Ho Fs HP) as H1.
-    pose proof (step_own c (nth_st sts k) s o Hf HO) as O1.
-    pose proof (step_model c (nth_st sts k) s o) as M1.
-    destruct (step c (nth_st sts k) s o) as [s' r]. cbn [fst] in *.
-    unfold MInv, cur_st, cur_state. cbn [m_ids m_ann]. rewrite M1. cbn [s s_ann]. fold k.
+    pose proof (step_eq_free c (st_of sts (m_st ms) k) s o Ho Fs) as F1.
+    pose proof (step_hashpart c (st_of sts (m_st ms) k) s o Hf Ho Fs HP) as H1.
+    pose proof (step_own c (st_of sts (m_st ms) k) s o Hf HO) as O1.
+    pose proof (step_model c (st_of sts (m_st ms) k) s o) as M1.
+    destruct (step c (st_of sts (m_st ms) k) s o) as [s' r]. cbn [fst] in *.
+    unfold MInv, cur_st, cur_state. cbn [m_ids m_ann m_st]. rewrite M1. cbn [s s_ann]. fold k.
     split; [apply set_ids_eq_free; assumption|]. split; [|exact O1].
     unfold HashPart in *. exact H1.
 Qed.
@@ -146,20 +151,20 @@ Qed.
    id edits on any of them, assign*, clearAllIds and look-ups, identifiers free of '=':
    the list a look-up consults is the list of the model the annotator holds NOW, and its items are objects of
    that model. *)
-Theorem lookups_current_multi : forall c sts h idss,
+Theorem lookups_current_multi : forall c sts h idss stx,
   fx_refresh c = true -> fx_hash c = true -> eq_free_all idss -> Forall mop_eq_free h ->
-  let ms := fst (mrun c sts (minit idss) h) in
+  let ms := fst (mrun c sts (minit idss stx) h) in
   let k := a_model (m_ann ms) in
   a_has_model (m_ann ms) = true ->
-  let s := update c (nth_st sts k) {| s_ids := nth_ids (m_ids ms) k; s_ann := m_ann ms |} in
-  a_cache (s_ann s) = build_cache c (nth_st sts k) (nth_ids (m_ids ms) k) /\ a_owner (s_ann s) = k.
+  let s := update c (st_of sts (m_st ms) k) {| s_ids := nth_ids (m_ids ms) k; s_ann := m_ann ms |} in
+  a_cache (s_ann s) = build_cache c (st_of sts (m_st ms) k) (nth_ids (m_ids ms) k) /\ a_owner (s_ann s) = k.
 Proof.
-  intros c sts h idss Hf Hh F Hops ms k Hm s.
+  intros c sts h idss stx Hf Hh F Hops ms k Hm s.
   assert (I : MInv c sts ms).
   { apply mrun_inv; auto. split; [exact F|]. split; [left; reflexivity | apply hash_none_own; reflexivity]. }
   destruct I as [Fs [HP HO]]. unfold cur_st, cur_state in HP. fold k in HP.
   subst s. unfold update. cbn [s_ann s_ids]. rewrite Hm. cbn [negb].
-  destruct (opt_str_eqb (a_hash (m_ann ms)) (hash_string c (nth_st sts k) (nth_ids (m_ids ms) k))) eqn:E.
+  destruct (opt_str_eqb (a_hash (m_ann ms)) (hash_string c (st_of sts (m_st ms) k) (nth_ids (m_ids ms) k))) eqn:E.
   - cbn [s_ann]. destruct HP as [Hn|[ids0 [F0 [Hh0 Hc]]]]; cbn [s_ann] in *.
     + rewrite Hn in E. discriminate.
     + split.
